@@ -1,3 +1,58 @@
+(* C01  GMM log-likelihood is the log of a normalised diagonal-Gaussian mixture density.
+   Only statements here; every proof is `exact <lemma of Proofs/GMMLik.v>`. *)
 From Coq Require Import Reals List.
-Theorem placeholder : True. Proof. exact I. Qed.
-Print Assumptions placeholder.
+From BLE Require Import Num.InstR Model.GMM Proofs.RLemmas Proofs.GMMLik.
+Import ListNotations MR.
+Open Scope R_scope.
+
+(* the reported value is ln (sum_c w_c prod_d N(x_d; mu_cd, var_cd)) with the normalisation
+   constant 1/sqrt(2 pi var) inside gauss1 - any number of components and features *)
+Theorem C01_ll_is_log_mixture (m : gmm) (x : list R) :
+  wf_gmm (length x) m -> ll m x = ln (mixture_density m x).
+Proof. exact (ll_is_log_mixture m x). Qed.
+Print Assumptions C01_ll_is_log_mixture.
+
+Theorem C01_component_density (c : comp) (x : list R) :
+  wf_comp (length x) c -> let '(w, mu, v) := c in exp (lwl c x) = w * gaussD x mu v.
+Proof. exact (lwl_is_log_weighted_density c x). Qed.
+Print Assumptions C01_component_density.
+
+Theorem C01_lwl_log_sum_exp (m : gmm) (x : list R) :
+  comps m <> [] -> ll m x = ln (rsum (map exp (lwls m x))).
+Proof. exact (lwl_lse m x). Qed.
+Print Assumptions C01_lwl_log_sum_exp.
+
+Theorem C01_batch_split (m : gmm) (X1 X2 : list (list R)) :
+  log_likelihood m (X1 ++ X2) = log_likelihood m X1 ++ log_likelihood m X2.
+Proof. exact (ll_batch_app m X1 X2). Qed.
+Print Assumptions C01_batch_split.
+
+Theorem C01_single_equals_in_batch (m : gmm) (X : list (list R)) (i : nat) (x : list R) :
+  nth_error X i = Some x -> nth_error (log_likelihood m X) i = Some (ll m x).
+Proof. exact (ll_single_in_batch m X i x). Qed.
+Print Assumptions C01_single_equals_in_batch.
+
+Theorem C01_any_row_chunking (m : gmm) (Bs : list (list (list R))) :
+  log_likelihood m (concat Bs) = concat (map (log_likelihood m) Bs).
+Proof. exact (ll_concat m Bs). Qed.
+Print Assumptions C01_any_row_chunking.
+
+(* tail behaviour over R: the reduction is max + ln(1 + exp(-|a-b|)) - the exponent is never positive -
+   and the result lies within ln(#components) of the largest component *)
+Theorem C01_logaddexp_stable_form (a b : R) :
+  logaddexp a b = (if Req_EM_T a b then a + ln 2 else Rmax a b + ln (1 + exp (- Rabs (a - b))))
+  /\ - Rabs (a - b) <= 0 /\ logaddexp a b = ln (exp a + exp b).
+Proof. exact (conj (logaddexp_stable a b) (conj (logaddexp_exp_arg_nonpos a b) (logaddexp_spec a b))). Qed.
+Print Assumptions C01_logaddexp_stable_form.
+
+Theorem C01_lse_bounds (x : R) (r : list R) :
+  rmax_list x r <= lse (x :: r) <= rmax_list x r + ln (INR (length (x :: r))).
+Proof. exact (lse_bounds x r). Qed.
+Print Assumptions C01_lse_bounds.
+
+Theorem C01_density_positive (m : gmm) (x : list R) : wf_gmm (length x) m -> 0 < mixture_density m x.
+Proof. exact (mixture_density_pos m x). Qed.
+Print Assumptions C01_density_positive.
+
+Example C01_nonvacuous : wf_gmm 2 {| ws := [/4; 3/4]; mus := [[0; 0]; [4; 4]]; vars := [[1; 1]; [2; /2]] |}.
+Proof. exact wf_example. Qed.
